@@ -19,6 +19,7 @@ def gen_plant_case(rng, idx, kind=None, n=None):
     case = _gen_plant_case(rng, idx, kind, n)
     if rng.random() < 0.3:
         plants.relabel(case["spec"], style=str(rng.choice(["per-kind", "per-category"])))
+    plants.mark_int_ratings(rng, case["spec"])
     return case
 
 
@@ -52,16 +53,20 @@ def _gen_plant_case(rng, idx, kind=None, n=None):
     for p in ptis:
         ein["comp"][p["name"]]["mode"] = [1.0] * ein["n"]
         ein["comp"][p["name"]]["status"] = [True] * ein["n"]
-    inp = {"n": ein["n"], "dt": ein["dt"], "breaker": ein["breaker"], "comp": {**ein["comp"]}, "mech": min_["comp"]}
+    inp = {"n": ein["n"], "dt": ein["dt"], "breaker": ein["breaker"], "comp": {**ein["comp"]}, "mech": min_["comp"],
+           # how the series are handed over (dtypes, shared array objects, in-place filling) on either side
+           "flags": {k: v for k, v in ein.items() if k not in ("n", "dt", "breaker", "comp")},
+           "mech_flags": {k: v for k, v in min_.items() if k not in ("n", "dt", "comp")}}
     return {"idx": idx, "kind": kind, "spec": spec, "inputs": inp}
 
 
 def elec_inputs(case):
-    return case["inputs"] if case["kind"] == "electric" else {k: case["inputs"][k] for k in ("n", "dt", "breaker", "comp")}
+    return case["inputs"] if case["kind"] == "electric" else dict({k: case["inputs"][k] for k in ("n", "dt", "breaker", "comp")}, **case["inputs"].get("flags", {}))
 
 
 def mech_inputs(case):
-    return case["inputs"] if case["kind"] == "mechanical" else {"n": case["inputs"]["n"], "dt": case["inputs"]["dt"], "comp": case["inputs"]["mech"]}
+    return case["inputs"] if case["kind"] == "mechanical" else dict({"n": case["inputs"]["n"], "dt": case["inputs"]["dt"], "comp": case["inputs"]["mech"]},
+                                                                   **case["inputs"].get("mech_flags", {}))
 
 
 def run_plant(case, plant=None, before_balance=None):
